@@ -101,3 +101,11 @@ def own_isd_fixture_matches(ix) -> bool:
   c.where = lambda mod, n: "fixture"
   pur.check_isd_ownership(c, prov, [fi])
   return len(c.bads) == 1
+
+
+def set_iteration_fixture_matches() -> bool:
+  from .rules import lint
+  c = _NullCtx(_FakeIndex())
+  c.where = lambda mod, n: "fixture"
+  lint.set_iteration(c, [fixture_module("set_iteration.py")])
+  return len(c.bads) == 1
